@@ -72,7 +72,8 @@ def build(src, flags, tag, cxx=None, extra_inputs=(), timeout=900, use_include=T
             h.update(fh.read())
     h.update(("\0".join(flags) + "|" + cxx + "|" + srcp).encode())
     os.makedirs(BUILD, exist_ok=True)
-    out = os.path.join(BUILD, "%s-%s%s" % (tag, h.hexdigest()[:16], "" if link else ".o"))
+    fh8 = hashlib.sha256(("\0".join(flags) + "|" + cxx + "|" + srcp).encode()).hexdigest()[:8]
+    out = os.path.join(BUILD, "%s-%s-%s%s" % (tag, fh8, h.hexdigest()[:16], "" if link else ".o"))
     if os.path.exists(out):
         return out
     cmd = [cxx] + list(flags) + (["-I", INC] if use_include else []) + ["-I", SRC, srcp, "-o", out + ".tmp%d" % os.getpid()]
@@ -86,6 +87,14 @@ def build(src, flags, tag, cxx=None, extra_inputs=(), timeout=900, use_include=T
             pass
         raise BuildError(" ".join(cmd), r.stdout.decode(errors="replace"))
     os.rename(out + ".tmp%d" % os.getpid(), out)
+    # prune stale builds of the same tag (older header/harness contents)
+    import glob
+    for old in glob.glob(os.path.join(BUILD, "%s-%s-*" % (tag, fh8))):
+        if old != out and ".tmp" not in old and len(os.path.basename(old)) == len(os.path.basename(out)):
+            try:
+                os.unlink(old)
+            except OSError:
+                pass
     return out
 
 
